@@ -362,7 +362,7 @@ func (P *Prog) expandLiteralTemplates(lits []testLit, depth int) []testLit {
 			}
 			for k, prm := range tl.fn.Params {
 				if k < len(args) {
-					nt.tmplEnv[prm] = cv(args[k])
+					nt.tmplEnv[prm] = args[k]
 				}
 			}
 			if !tl.codeConst {
